@@ -90,6 +90,11 @@ func GenMetricDataN(t *rapid.T, maxRecs int, ambiguousLabels bool, variedUnwrap 
 			{{"a": "x", "b": "y"}, {"a": "y", "b": "x"}},
 			// the same pairs split differently between name and value
 			{{"a": "bb"}, {"ab": "b"}},
+			// an empty value against a missing label: as many labels, all shared ones equal
+			{{"a": "", "b": "x"}, {"ab": "y", "b": "x"}},
+			{{"a": ""}, {"b": "a"}},
+			{{"a": "", "ab": ""}, {"b": "", "ba": ""}},
+			{{"a": "", "ab": "x"}, {"ab": "x", "b": ""}},
 		}
 		pair := rapid.SampledFrom(pairs).Draw(t, "pair")
 		d.GroupLabels = []string{"a", "ab", "b", "ba"}
